@@ -76,7 +76,6 @@ def _exact_sqrt(fr):
 class R:
     """real / ring scalar"""
     __slots__ = ('n', 'ring')
-    __array_priority__ = 1000
 
     def __init__(self, node, ring=False):
         self.n = node
@@ -282,7 +281,6 @@ def sqrt(x):
 class Cx:
     """complex value with symbolic real and imaginary parts"""
     __slots__ = ('re', 'im')
-    __array_priority__ = 1000
 
     def __init__(self, re, im):
         self.re = R.lift(re)
